@@ -315,6 +315,9 @@ def classify(res, scs, mapped, results):
             for pid_, n in (sc.get('pubcloses') or {}).items():
                 if int(pid_) < 8 and bool(n) != bool(pubs[int(pid_)]) and not _cut(sc):
                     res.mismatches.append(dict(kind='publisher %s closed: model %s implementation %s' % (pid_, pubs[int(pid_)], n), case=case))
+        for e in sc['events']:
+            if e['p'] == 'api.panic':
+                res.violations.append(dict(signature='C10/router-call-panicked', what='%s panicked: %s' % tuple(e['k'][:2]), case=case))
         for s, c in zip(sc['subscribes'] or [], sc['subcalls'] or []):
             if s > 1:
                 res.violations.append(dict(signature='C10/double-subscribe', what='scripted subscriber saw %d successful Subscribe calls for one handler' % s, case=case))
@@ -339,7 +342,7 @@ ASSUMPTIONS = [
     'Run is not called concurrently with another Run\'s first two statements, and Stop()/Stopped() are read after <-Started() or before any RunHandlers: the unsynchronised fields isRunning / started / stopped are modelled as atomic reads '
     '(concurrent first Run calls are a data race outside the model)',
     'one subscriber object per handler (subscriber.Close() of handleClose ends that handler\'s subscription only); handlers are not added while the router shuts down (property quantifier)',
-    'liveness verdicts on the implementation (Run returns, probe message taken, Stopped() closes) use watchdogs of 3-4 s after the triggering call; they are testing-level, the model-side statement is C10_self_close_not_stuck',
+    'liveness verdicts on the implementation (Run returns, probe message taken, Stopped() closes) use watchdogs of 5-8 s after the triggering call; they are testing-level, the model-side statement is C10_self_close_not_stuck',
     'data races are outside the model',
 ]
 
